@@ -62,7 +62,7 @@ func (h *sfLogHook) Levels() []log.Level {
 func (h *sfLogHook) Fire(e *log.Entry) error {
 	h.mu.Lock()
 	if len(h.msgs) < 64 {
-		h.msgs = append(h.msgs, trunc(e.Message, 240))
+		h.msgs = append(h.msgs, trunc(e.Message, 700))
 	}
 	h.mu.Unlock()
 	return nil
@@ -423,7 +423,9 @@ func sfRunWorker(dir, stdin string, restart bool, maxprocs int) sfChild {
 	if err != nil {
 		self = os.Args[0]
 	}
-	cmd := exec.Command(self, "e2eworker")
+	// 4 GiB address-space limit: a length field read from a damaged file must not be able to take the memory of
+	// the (shared) machine; an allocation beyond it ends the process with "fatal error: out of memory" = a crash
+	cmd := exec.Command("/bin/sh", "-c", `ulimit -v 4194304; exec "$0" e2eworker`, self)
 	cmd.Dir = dir // the data directory is given relative to it ("d"), as a deployment's dataPath may be
 	cmd.Stdin = strings.NewReader(stdin)
 	extra := []string{"VERIF_DATA_DIR=d", "VERIF_LOG_ERRORS=1"}
@@ -464,13 +466,18 @@ func sfRunWorker(dir, stdin string, restart bool, maxprocs int) sfChild {
 	return c
 }
 
-// first frame inside the repository's pkg/ tree of a Go panic / fatal error trace
+// first frame inside the repository's pkg/ tree of a Go panic / fatal error trace (generic helpers of pkg/utils are
+// skipped when a caller inside pkg/ follows)
 func sfCrashSite(stderr string) (site, msg string) {
 	site = "unknown"
 	el := strings.Split(stderr, "\n")
+	first := ""
 	for li, l := range el {
 		if msg == "" && (strings.HasPrefix(l, "panic:") || strings.HasPrefix(l, "fatal error:")) {
 			msg = trunc(l, 200)
+		}
+		if msg != "" && strings.HasPrefix(l, "goroutine ") && first != "" {
+			break // only the first goroutine of the trace
 		}
 		if msg != "" && strings.Contains(l, "/pkg/") && strings.HasPrefix(l, "\t") && li > 0 {
 			fn := strings.TrimSpace(el[li-1])
@@ -480,8 +487,17 @@ func sfCrashSite(stderr string) (site, msg string) {
 			if k := strings.LastIndex(fn, "/"); k >= 0 {
 				fn = fn[k+1:]
 			}
-			return fn, msg
+			fn = strings.ReplaceAll(fn, "[...]", "")
+			if first == "" {
+				first = fn
+			}
+			if !strings.Contains(l, "/pkg/utils/") {
+				return fn, msg
+			}
 		}
+	}
+	if first != "" {
+		return first, msg
 	}
 	return site, msg
 }
@@ -743,7 +759,18 @@ type sfJudgement struct {
 	tags  []string
 }
 
+// Witness classes.  Column files (.csg) are written through the checksummed chunk file: what goes wrong is told apart
+// (altered-value-served, wrong-event-returned, duplicate-event, silent-loss).  The other files carry no checksum at
+// all; whatever the engine makes of a changed byte there (lost, altered or wrongly matched events) is one class per
+// file kind: undetected-damage/<kind>.  Effects on OTHER segments, crashes and hangs are always classes of their own.
 func (j *sfJudgement) fail(class, fileCls, msg string) {
+	if fileCls != "csg" && fileCls != "csg-ts" && fileCls != "" {
+		switch class {
+		case "altered-value-served", "wrong-event-returned", "duplicate-event", "silent-loss":
+			msg = class + ": " + msg
+			class = "undetected-damage"
+		}
+	}
 	sig := "segfault/" + class
 	if fileCls != "" {
 		sig += "/" + fileCls
@@ -761,6 +788,21 @@ func (j *sfJudgement) fail(class, fileCls, msg string) {
 // an event twice, an event/field of an undamaged segment missing.
 func sfJudge(ds *sfDataset, qs []sfQuery, clean, got []sfAns, damaged map[int]bool, startupErrs []string, m sfMut, j *sfJudgement) {
 	fc := m.fileCls
+	// start-up errors count as a report only when they are about the damaged segment (its directory …/<n>/<n>) or, for
+	// segmeta.json, about that file; a restart always logs one error about the next, still empty segment directory
+	var about []string
+	for _, e := range startupErrs {
+		rel := m.kind == "segmeta" && strings.Contains(strings.ToLower(e), "segmeta")
+		for s := range damaged {
+			if strings.Contains(e, fmt.Sprintf("/%d/%d", s, s)) {
+				rel = true
+			}
+		}
+		if rel {
+			about = append(about, e)
+		}
+	}
+	startupErrs = about
 	for qi, q := range qs {
 		c, g := clean[qi], got[qi]
 		where := fmt.Sprintf("query %d (%s)", qi, q.spl)
@@ -1032,7 +1074,14 @@ func execSegfault(line string) Result {
 		return Result{Out: "bad-op"}
 	}
 	dir := sfTmp()
-	defer os.RemoveAll(dir)
+	if keep := os.Getenv("VERIF_SF_KEEP"); keep != "" { // manual triage: keep the damaged directory and the query script
+		dir = keep
+		os.RemoveAll(dir)
+		os.MkdirAll(dir, 0o755)
+		os.WriteFile(filepath.Join(dir, "queries"), []byte("waitsync\n"+qin.String()), 0o644)
+	} else {
+		defer os.RemoveAll(dir)
+	}
 
 	// child 1: build the dataset, answer on the undamaged files
 	c1 := sfRunWorker(dir, ds.stdin+qin.String(), false, 2)
